@@ -128,6 +128,18 @@ CLAIMS = {
          "RaggedArray; by-path refusal with byte snapshots); key/type tables regenerated from source.",
          "Coq proof over an executable model of descriptor validation + in-Coq differential evaluation over enumerated corruptions",
          "6.C18"),
+ 'C13': ("kernel-checked over Meta.v (keys = strings ordered as Python orders them, values opaque): the "
+         "dictionary laws of the stored mapping (get-after-set, set/remove keep other keys, removed is gone), "
+         "and for EVERY sequence of update/setitem/pop(with and without default)/popitem/del/mode change: "
+         "metadata.json is never left unparsable, exists exactly when the metadata are non-empty and then "
+         "holds them sorted (C13_file_iff_nonempty, by induction); pop with a default never raises, a missing "
+         "key without default gives KeyError, a non-serialisable update gives TypeError and changes nothing, "
+         "read-only refuses, crash states of a change read as before/after or raise. Tie: bounded-exhaustive "
+         "+ random op sequences x 25 value kinds x start x {Array, RaggedArray}, outcome and file compared "
+         "inside coqc; all read accessors of live and fresh handles compared with an independent dict + "
+         "JSON-round-trip oracle.",
+         "Coq proof over an executable model of MetaData + in-Coq differential evaluation on operation sequences",
+         "6.C13"),
  'C14': ("fit_frames and Array.iterindices are re-translated from /repo's source into Gallina on "
          "every run and five theorems (exact frame count for all integers, remainder rule, "
          "rejection of every out-of-range parameter, tiling a[start:end] when step=chunklen) are "
